@@ -9,7 +9,7 @@ VERIF_REPO pointing at the copy and evidence redirected, and the outcome (the re
 the VIOLATION line, or "missed") is printed as one JSON line.  /repo itself is never modified
 and the committed evidence is not touched.  The scratch copies are removed at the end.
 """
-import json, os, subprocess, sys, shutil, threading, queue
+import json, os, re, subprocess, sys, shutil, threading, queue
 
 ENV = dict(os.environ, GOFLAGS="-mod=mod", GOPROXY="off", GOSUMDB="off", GOTOOLCHAIN="local")
 VERIF = os.path.dirname(os.path.dirname(os.path.abspath(__file__)))
@@ -25,8 +25,8 @@ def sh(cmd, cwd, timeout=3000):
 
 
 def worker(k, q, tier, lock):
-    mrepo = "/var/tmp/rs-repo-%d" % k
-    evid = "/var/tmp/rs-evidence-%d" % k
+    mrepo = "/var/tmp/rs-repo-%d-%d" % (os.getpid(), k)
+    evid = "/var/tmp/rs-evidence-%d-%d" % (os.getpid(), k)
     shutil.rmtree(mrepo, ignore_errors=True)
     subprocess.run(["git", "clone", "-q", "/repo", mrepo], check=True)
     while True:
@@ -36,19 +36,26 @@ def worker(k, q, tier, lock):
             break
         d = os.path.join(VERIF, "seeded", name)
         meta = json.load(open(os.path.join(d, "meta.json")))
-        prop = meta["property"]
+        prop = meta["property"][:3]
+        # a change may be one that another property's check is the one to catch (meta.caught_by
+        # names it): run the change's own check first, then those
+        props = [prop] + [p for p in dict.fromkeys(re.findall(r"C[0-2][0-9]", meta.get("caught_by", ""))) if p != prop]
         res = {"name": name, "property": prop}
         sh("git checkout -q -- . && git clean -fdq", mrepo)
         rc, out = sh("git apply '%s/patch.diff'" % d, mrepo)
         if rc != 0:
             res["result"] = "patch-does-not-apply"
         else:
-            rc, out = sh("VERIF_EVIDENCE_DIR=%s VERIF_REPO=%s ./check %s --tier %s --seed 1 2>&1 | grep -v '^KNOWN-FINDING' | tail -3"
-                         % (evid, mrepo, prop, tier), VERIF)
-            viol = [l for l in out.splitlines() if l.startswith("VIOLATION")]
-            res["result"] = (viol[0].split("replay=")[-1].replace(VERIF + "/replays/", "") if viol else "missed")
-            if not viol:
-                res["tail"] = out[-300:]
+            res["result"] = "missed"
+            for p in props:
+                rc, out = sh("VERIF_EVIDENCE_DIR=%s VERIF_REPO=%s ./check %s --tier %s --seed 1 2>&1 | grep -v '^KNOWN-FINDING' | tail -3"
+                             % (evid, mrepo, p, tier), VERIF)
+                viol = [l for l in out.splitlines() if l.startswith("VIOLATION")]
+                if viol:
+                    res["result"] = viol[0].split("replay=")[-1].replace(VERIF + "/replays/", "")
+                    res["by"] = p
+                    break
+                res["tail"] = out[-200:]
         with lock:
             print(json.dumps(res), flush=True)
     shutil.rmtree(mrepo, ignore_errors=True)
